@@ -185,8 +185,10 @@ def run(ctx):
                 "cases; non-trivial = some ring cut into several ways or some way reversed")
     ctx.assumptions = [
         "geometry enters the specification through three facts the renderer guarantees: rings are convex and listed "
-        "counter-clockwise, holes lie strictly inside their outer, outers are disjoint (regular polygons on circles, "
-        "6 magnitude profiles incl. one straddling lon=0/lat=0 and two with a vertex at exactly lon=0 / lat=0); numeric robustness near degeneracy is not explored",
+        "counter-clockwise, holes lie strictly inside their outer, outers are disjoint (polygons on circles, 6 magnitude "
+        "profiles incl. one straddling lon=0/lat=0 and two with a vertex at exactly lon=0 / lat=0; plus the grid placement "
+        "(case field grid): integer grid, hole vertices exactly level with non-extremal vertices of other outers to their "
+        "east / west, shared longitudes in column arrangements - every multi-outer shape with holes runs under both); numeric robustness near degeneracy is not explored",
         "member ways are untagged, the relation carries type=multipolygon|boundary (+ name)",
         "'the result is the same' is read as: same polygons with the same rings as cyclic sequences with direction "
         "(start vertex of a ring and order of polygons / holes are representation)",
